@@ -2,7 +2,10 @@ package main
 
 import (
 	"fmt"
+	"strconv"
 	"strings"
+
+	"github.com/openfga/language/pkg/go/graph"
 )
 
 // An independent derivation of the weighted graph's edges from the model, straight from the
@@ -138,6 +141,18 @@ func c10Oracle(c *Ctx, m *Model, canon, structDump string) {
 	x := parseSX(structDump)
 	if x.Head() != "wg" {
 		return
+	}
+	// node kinds: the node of a declared type is a type node, whatever restriction list mentioned it first
+	typeNames := map[string]bool{}
+	for _, t := range m.Types {
+		typeNames[t.Name] = true
+	}
+	for _, n := range x.List[1].List[1:] {
+		if len(n.List) == 3 && typeNames[n.List[0].Atom] && !strings.ContainsAny(n.List[0].Atom, "#:@") && n.List[2].Atom != strconv.Itoa(int(graph.SpecificType)) {
+			c.OracleFail("c10:node-kind", map[string]any{"model": canon, "node": n.List[0].Atom, "kind": n.List[2].Atom},
+				"the node of the declared type "+n.List[0].Atom+" is not a type node", "")
+			return
+		}
 	}
 	real := map[string]string{}
 	for _, e := range x.List[2].List[1:] {
